@@ -12,12 +12,14 @@ import (
 	"encoding/hex"
 	"encoding/json"
 	"fmt"
+	"github.com/Dash-Industry-Forum/livesim2/pkg/drm"
 	"io"
 	"log/slog"
 	"net/http"
 	"net/http/httptest"
 	"os"
 	"os/exec"
+	"path/filepath"
 	"sort"
 	"strconv"
 	"strings"
@@ -223,6 +225,9 @@ func genC07(c *Ctx) {
 		}
 		_ = os.RemoveAll(cdir)
 	}
+	// DRM-configured instances (two CPIX packages with the same scheme): one instance is asked package by package, a
+	// second, fresh one in the opposite order; every answer must be the same
+	c07Drm(c, viol)
 	// concurrently on the long-running server, with ingest sessions running
 	var wg sync.WaitGroup
 	var mu sync.Mutex
@@ -356,4 +361,52 @@ func c07Child(args []string) {
 	os.Stdout.Write(b)
 	_ = context.Background
 	_ = http.StatusOK
+}
+
+func startDrmServer() (*app.Server, error) {
+	dc, err := drm.ReadDrmConfig(filepath.Join(repoRoot(), "pkg/drm/testdata/drm_config_test.json"))
+	if err != nil {
+		return nil, err
+	}
+	cfg := app.DefaultConfig
+	cfg.VodRoot = bundledRoot()
+	cfg.RepDataRoot = ""
+	cfg.TimeoutS = 0
+	cfg.LogLevel = "ERROR"
+	cfg.DrmCfg = dc
+	return app.SetupServer(context.Background(), &cfg)
+}
+
+func c07Drm(c *Ctx, viol func(kind, what, u string)) {
+	a, errA := startDrmServer()
+	b, errB := startDrmServer()
+	if errA != nil || errB != nil {
+		c.Violate("start", fmt.Sprintf("DRM-configured server: %v %v", errA, errB), []string{"# start"}, nil)
+		return
+	}
+	var urls []string
+	for _, pkg := range []string{"EZDRM-1-key-cbcs-test", "EZDRM-2-keys-cbcs-test"} {
+		for _, rep := range []string{"V300", "A48"} {
+			urls = append(urls, "/livesim2/drm_"+pkg+"/testpic_2s/"+rep+"/init.mp4?nowMS=610000",
+				"/livesim2/drm_"+pkg+"/testpic_2s/"+rep+"/300.m4s?nowMS=610000")
+		}
+		urls = append(urls, "/livesim2/drm_"+pkg+"/testpic_2s/Manifest.mpd?nowMS=610000")
+	}
+	first := map[string]string{}
+	for _, u := range urls {
+		first[u] = serveURL(a, u)
+	}
+	for i := len(urls) - 1; i >= 0; i-- {
+		u := urls[i]
+		if got := serveURL(b, u); got != first[u] {
+			viol("history", fmt.Sprintf("DRM packages asked in the opposite order on a fresh instance: %s instead of %s", got, first[u]), u)
+		}
+		c.Count("responses-compared")
+	}
+	for _, u := range urls { // and again on the first instance
+		if got := serveURL(a, u); got != first[u] {
+			viol("history", fmt.Sprintf("asked again: %s instead of %s as answered first", got, first[u]), u)
+		}
+		c.Count("responses-compared")
+	}
 }
